@@ -39,12 +39,12 @@ MODIFIERS = {"pub", "unsafe", "async", "default", "crate"}
 
 
 class Src:
-    def __init__(self, repo, rel):
+    def __init__(self, repo, rel, text=None):
         self.repo, self.rel = repo, rel
         path = os.path.join(repo, rel)
         if not os.path.exists(path):
             raise Undecided(f"anchor lost: file {rel} missing")
-        self.text = open(path, encoding="utf-8").read()
+        self.text = open(path, encoding="utf-8").read() if text is None else text
         try:
             self.toks = lex(self.text)
             self.pairs = match_brackets(self.toks)
